@@ -36,6 +36,9 @@ LEVEL_TEXT = ("Machine-checked: before the cut-off a timeout moves EVERY instanc
               "exactly one prepare and one commit (the leader also its proposal) and staying in round 1 - for EVERY committee of "
               "distinct non-zero ids, every quorum between 1 and its size, every height and leader (C07_sync_fault_free, "
               "C07_sync_fault_free_generic; also evaluated for sizes 4, 7, 10, 13). "
+              "Recovery is PROVED for one family of states, for every committee: after a silent first round (nothing delivered, "
+              "up to n - quorum operators silent) the live operators decide the round-2 leader's value in round 2, and what they "
+              "broadcast is what the schedule delivers (C07_recovery_from_silent_round). "
               "PARTIAL: recovery from every reachable state is explored on the real code (timely continuation after adversarial "
               "prefixes, rounds needed are measured), not proved.")
 LEVEL_NOTE = ("Partial claim: C07's existential recovery sentence is supported by exploration only; a heuristic continuation that "
